@@ -157,8 +157,13 @@ Definition parse_line (line : bytes) : res rec_kind :=
   match t with
   | [49%N] => Ok KFileHeader
   | [53%N] =>
-      s1 <- sl line 50 53 ;; s2 <- sl line 4 20 ;;
-      Ok (if bytes_eqb s1 iat_code || bytes_eqb (trim s2) iatcor_code then KBatchHeaderIAT else KBatchHeader)
+      (* parseBH since the C01 fix: columns counted in characters, guarded by len([]rune(line)) >= 53 *)
+      let cs := map snd (chunks line) in
+      if (53 <=? length cs)%nat
+      then Ok (if bytes_eqb (concat (firstn 3 (skipn 50 cs))) iat_code
+                  || bytes_eqb (trim (concat (firstn 16 (skipn 4 cs)))) iatcor_code
+               then KBatchHeaderIAT else KBatchHeader)
+      else Ok KBatchHeader
   | [54%N] => Ok KEntryDetail
   | [55%N] => tc <- sl line 1 3 ;; cc <- sl line 3 6 ;; Ok (KAddenda tc cc)
   | [56%N] => Ok KBatchControl
